@@ -1,6 +1,6 @@
 """C13 — a cut-off or corrupt response is never presented as complete.
 
-case = {"payload": bytes, "coding": identity|gzip|deflate|zstd, "framing": len|chunked|eof, "chunks": [sizes], "ext": bool, "segs": [sizes],
+case = {"payload": bytes, "coding": identity|gzip|deflate|zstd, "framing": len|chunked|eof, "chunks": [sizes], "ext": False|True|2|3|4 (chunk extensions as in C12), "segs": [sizes],
         "decode": bool, "api": [name, arg], "fault": ["cut", k] | ["corrupt", pos, byte] | ["zcut", k] | ["none"]}
 The framed body is built as in C12; a cut ends the stream (EOF) after k body bytes, a corruption replaces one body byte; zcut: the
 compressed stream itself stops after k bytes and is then framed correctly (the framing is complete, the content is not).
@@ -346,7 +346,7 @@ def base_case(rng, framing=None):
     payload = bytes(rng.choice(b"ab\n") for _ in range(n)) if rng.random() < 0.6 else bytes(rng.randrange(256) for _ in range(n))
     framing = framing or rng.choice(["len", "chunked", "chunked", "eof"])
     return {"payload": payload, "coding": rng.choice(["identity", "identity", "gzip", "deflate", "zstd"]), "framing": framing,
-            "chunks": [rng.choice([1, 2, 5, 16, 1000]) for _ in range(rng.randint(1, 3))], "ext": rng.random() < 0.25,
+            "chunks": [rng.choice([1, 2, 5, 16, 1000]) for _ in range(rng.randint(1, 3))], "ext": rng.choice([False, False, True, 2, 3, 4]),
             "segs": [rng.choice([1, 3, 10, 10000]) for _ in range(rng.randint(1, 2))], "decode": rng.random() < 0.6}
 
 
